@@ -576,6 +576,26 @@ func muxReAddAfterMany(r *Rng, tier string, n int) (int, []muxOp) {
 	return r.Range(1, 50), g.ops
 }
 
+// muxSameShapeHeaders: consecutive units on one PID whose PES optional headers have the same flags (PTS, an extension
+// with extension field 2) and differ only in values and in the LENGTH of the variable part (extension 2 bytes), as an
+// application re-using one header struct produces them (runMux hands the library the same struct every time).
+func muxSameShapeHeaders(r *Rng, tier string) (int, []muxOp) {
+	g := newMuxGen(r, tier)
+	g.addExplicit(0)
+	pid := g.pids[0]
+	g.setPCR(true)
+	for i := r.Range(3, 8); i > 0; i-- {
+		n := r.Range(1, 40)
+		if r.Chance(1, 3) {
+			n = []int{1, 2, 39, 40}[r.Intn(4)]
+		}
+		h := &astits.PESHeader{OptionalHeader: &astits.PESOptionalHeader{MarkerBits: 2, PTSDTSIndicator: astits.PTSDTSIndicatorOnlyPTS, PTS: genCR(r, 0),
+			HasExtension: true, HasExtension2: true, Extension2Data: r.Bytes(n), Extension2Length: uint8(n)}}
+		g.ops = append(g.ops, muxOp{kind: opData, d: &astits.MuxerData{PID: pid, PES: &astits.PESData{Header: h, Data: r.Bytes(r.Range(1, 400))}}})
+	}
+	return r.Range(1, 20), g.ops
+}
+
 // muxPayloadSize draws from {1, 2, k*184-d, 65520..65560, random}.
 func (g *muxGen) payloadSize() int {
 	r := g.r
@@ -1214,6 +1234,10 @@ func muxGenAll(r *Rng, tier string, m muxMix, emit func(string, Tok)) {
 		}
 		p, ops := muxPMTBody(r, tier, target)
 		emit("pmt-body-overflow", muxCaseTok(p, ops))
+	}
+	for i := 0; i < m.readd/4+2; i++ {
+		p, ops := muxSameShapeHeaders(r, tier)
+		emit("same-shape-headers", muxCaseTok(p, ops))
 	}
 	for i := 0; i < m.bigPMT/2+1; i++ {
 		p, ops := muxPMTCapacity(r, tier, []int{171, 172, 172, 173, 170, 177, 184}[i%7])
